@@ -2,17 +2,15 @@ package props
 
 import (
 	"context"
-	"fmt"
-	"strings"
-	"sync"
 	"testing"
 
 	"pgregory.net/rapid"
 
+	"github.com/openfga/openfga/verifharness/fw"
 	"github.com/openfga/openfga/verifharness/gen"
 	"github.com/openfga/openfga/verifharness/m"
 	"github.com/openfga/openfga/verifharness/refsem"
-	"github.com/openfga/openfga/verifharness/sut"
+	"github.com/openfga/openfga/verifharness/semkit"
 )
 
 // C01 — Check decisions match the model's relation semantics.
@@ -22,141 +20,49 @@ type C01Case struct {
 	Requests []m.Request `json:"requests"`
 }
 
-func genC01(t *rapid.T) C01Case {
+func worldOpts() gen.Opts {
 	o := gen.DefaultOpts()
-	if TierIsThorough() {
+	if fw.TierIsThorough() {
 		o.MaxTuples = 24
 		o.MaxIDs = 4
 	}
-	w := gen.GenWorld(t, o)
-	n := rapid.IntRange(4, 10).Draw(t, "nRequests")
-	c := C01Case{World: w}
+	return o
+}
+
+func genRequests(t *rapid.T, w gen.World, o gen.Opts, lo, hi int) []m.Request {
+	n := rapid.IntRange(lo, hi).Draw(t, "nRequests")
+	var out []m.Request
 	for i := 0; i < n; i++ {
 		r := gen.RequestFor(t, w, o)
 		if rapid.IntRange(0, 3).Draw(t, "withContextual") == 0 {
 			r.Contextual = gen.Contextual(t, w, o, 3)
 		}
-		c.Requests = append(c.Requests, r)
+		out = append(out, r)
 	}
-	return c
+	return out
 }
 
-var (
-	plainOnce sync.Once
-	plainSUT  *sut.SUT
-)
-
-// plain returns the process-wide cache-free default-engine server.
-func plain() *sut.SUT {
-	plainOnce.Do(func() { plainSUT = sut.New() })
-	return plainSUT
+func genC01(t *rapid.T) C01Case {
+	o := worldOpts()
+	w := gen.GenWorld(t, o)
+	return C01Case{World: w, Requests: genRequests(t, w, o, 4, 10)}
 }
 
-// setupWorld creates a store holding the world. It returns ("","",nil) when
-// the model is rejected by model validation (outside the property's domain).
-func setupWorld(env *Env, s *sut.SUT, w gen.World) (storeID, modelID string, f *Failure) {
-	if !refsem.Stratified(w.Model) {
-		env.Rec.Discard("not-stratified")
-		return "", "", nil
-	}
-	storeID = s.CreateStore("verif")
-	modelID, err := s.WriteModel(storeID, w.Model)
-	if err != nil {
-		env.Rec.Discard("model-rejected")
-		return "", "", nil
-	}
-	if err := s.WriteRaw(storeID, w.Left); err != nil {
-		return "", "", Failf("harness/raw-write-failed", "raw write: %v", err)
-	}
-	if err := s.WriteAPI(storeID, modelID, w.Tuples); err != nil {
-		return "", "", Failf("harness/valid-tuple-rejected", "Write rejected tuples the reference validator accepts: %v", err)
-	}
-	return storeID, modelID, nil
-}
-
-func modelClasses(mo *m.Model) []string {
-	set := map[string]bool{}
-	for _, td := range mo.Types {
-		for _, r := range td.Relations {
-			r.Rewrite.Walk(func(n *m.Rewrite) {
-				if n.Kind != m.This {
-					set["rw:"+n.Kind] = true
-				}
-			})
-			for _, re := range r.Restr {
-				set["restr:"+re.Kind()] = true
-				if re.Cond != "" {
-					set["restr:conditional"] = true
-				}
-				if re.Type == td.Name && re.Rel == r.Name {
-					set["recursive-userset"] = true
-				}
-			}
-		}
-	}
-	return gen.SortedKeys(set)
-}
-
-func nonDirect(mo *m.Model) bool {
-	for _, td := range mo.Types {
-		for _, r := range td.Relations {
-			if r.Rewrite.Kind != m.This {
-				return true
-			}
-		}
-	}
-	return false
-}
-
-func isConditionError(err error) bool {
-	return err != nil && strings.Contains(err.Error(), "failed to evaluate relationship condition")
-}
-
-func isTooComplex(err error) bool {
-	return err != nil && strings.Contains(err.Error(), "too complex")
-}
-
-// compareCheck compares an observed Check outcome with the reference value.
-//
-// allowed=true requires the reference value True, allowed=false requires
-// False (an Unknown reference value means the answer hinges on a condition
-// that cannot be evaluated: the request must fail). A failed request is
-// accepted when the reference value is Unknown, or when the failure is a
-// condition-evaluation error and some tuple of the case really has an
-// unevaluable condition under this request (the engine may evaluate a tuple's
-// condition before it knows that the tuple cannot matter).
-func compareCheck(exp refsem.Outcome, hasUnknownTuple bool, allowed bool, err error) (ok bool, why string) {
-	switch {
-	case err != nil && exp != refsem.Unknown:
-		if hasUnknownTuple && isConditionError(err) {
-			return true, ""
-		}
-		return false, fmt.Sprintf("reference=%v but the request failed: %v", exp, err)
-	case err != nil:
-		return true, ""
-	case exp == refsem.Unknown:
-		return false, fmt.Sprintf("reference=U (answer depends on a condition that cannot be evaluated) but allowed=%v was returned", allowed)
-	case allowed != (exp == refsem.True):
-		return false, fmt.Sprintf("reference=%v but allowed=%v", exp, allowed)
-	}
-	return true, ""
-}
-
-func checkC01(env *Env, c C01Case) *Failure {
-	s := plain()
-	storeID, modelID, f := setupWorld(env, s, c.World)
+func checkC01(env *fw.Env, c C01Case) *fw.Failure {
+	s := semkit.Plain()
+	storeID, modelID, f := semkit.SetupWorld(env, s, c.World)
 	if f != nil || storeID == "" {
 		return f
 	}
-	classes := modelClasses(c.World.Model)
+	classes := semkit.ModelClasses(c.World.Model)
 	if len(c.World.Left) > 0 {
 		classes = append(classes, "leftover-tuples")
 	}
 	sawT, sawF := false, false
 	for _, r := range c.Requests {
-		exp, unk := refCheck(c.World, r)
+		exp, unk := semkit.RefCheck(c.World, r)
 		allowed, err := s.Check(context.Background(), storeID, modelID, r)
-		if isTooComplex(err) {
+		if semkit.IsTooComplex(err) {
 			env.Rec.Add("depth_excluded", 1)
 			continue
 		}
@@ -164,8 +70,8 @@ func checkC01(env *Env, c C01Case) *Failure {
 		if len(r.Contextual) > 0 {
 			classes = append(classes, "with-contextual")
 		}
-		if ok, why := compareCheck(exp, unk, allowed, err); !ok {
-			return Failf(classifyC01(c.World, r, exp, allowed, err), "Check(%s): %s\nmodel:\n%s\ntuples: %v\nleftover: %v", r, why, c.World.Model.DSL(), c.World.Tuples, c.World.Left)
+		if ok, why := semkit.CompareCheck(exp, unk, allowed, err); !ok {
+			return fw.Failf(semkit.ClassifyCheck(c.World, r, exp, allowed, err), "Check(%s): %s\n%s", r, why, semkit.Describe(c.World))
 		}
 		if exp == refsem.True {
 			sawT = true
@@ -174,75 +80,13 @@ func checkC01(env *Env, c C01Case) *Failure {
 			sawF = true
 		}
 	}
-	nt := nonDirect(c.World.Model) && sawT && sawF
+	nt := semkit.NonDirect(c.World.Model) && sawT && sawF
 	var sample any
 	if nt {
-		sample = map[string]any{"model": c.World.Model.DSL(), "tuples": tupleStrings(c.World.Tuples), "leftover": tupleStrings(c.World.Left), "requests": len(c.Requests), "first_request": c.Requests[0].String()}
+		sample = map[string]any{"model": c.World.Model.DSL(), "tuples": semkit.TupleStrings(c.World.Tuples), "leftover": semkit.TupleStrings(c.World.Left), "requests": len(c.Requests), "first_request": c.Requests[0].String()}
 	}
 	env.Rec.Case(c, nt, sample, classes...)
 	return nil
 }
 
-// refCheck returns the reference value and whether any tuple's condition is
-// unevaluable under the request.
-func refCheck(w gen.World, r m.Request) (refsem.Outcome, bool) {
-	ts := append(refsem.FilterValid(w.Model, append(append([]m.Tuple{}, w.Tuples...), w.Left...)), r.Contextual...)
-	ev := refsem.NewEval(w.Model, ts, r.User, r.Ctx, r.Object)
-	return ev.Holds(r.Object, r.Relation), ev.HasUnknownTuple
-}
-
-func tupleStrings(ts []m.Tuple) []string {
-	out := make([]string, len(ts))
-	for i, t := range ts {
-		out[i] = t.String()
-	}
-	return out
-}
-
-// classifyC01 assigns a root-cause signature to a mismatch (see known_findings.json).
-func classifyC01(w gen.World, r m.Request, exp refsem.Outcome, allowed bool, err error) string {
-	if err == nil && !allowed && exp == refsem.Unknown && swallowedNextToValidSibling(w, r) {
-		return SigSwallowedConditionError
-	}
-	return ""
-}
-
-// SigSwallowedConditionError: a read that yields at least one tuple whose
-// condition evaluates to true drops the evaluation errors of its sibling
-// tuples (storage.ConditionsFilteredTupleKeyIterator), so a request whose
-// answer hinges on the unevaluable sibling gets allowed=false instead of an
-// error.
-const SigSwallowedConditionError = "C01/condition-error-swallowed-next-to-valid-sibling"
-
-// swallowedNextToValidSibling recognises that signature structurally: the
-// reference value with every unevaluable tuple treated as absent is False, and
-// some unevaluable tuple has a sibling in the same datastore read (same
-// relation and same object, or same relation, object type and user) whose
-// condition is absent or true.
-func swallowedNextToValidSibling(w gen.World, r m.Request) bool {
-	ts := append(refsem.FilterValid(w.Model, append(append([]m.Tuple{}, w.Tuples...), w.Left...)), r.Contextual...)
-	if refsem.NewEvalDroppingUnknown(w.Model, ts, r.User, r.Ctx, r.Object).Holds(r.Object, r.Relation) != refsem.False {
-		return false
-	}
-	outs := refsem.NewEval(w.Model, ts, r.User, r.Ctx, r.Object).TupleOutcomes()
-	for _, u := range outs {
-		if u.Outcome != refsem.Unknown {
-			continue
-		}
-		ut, _ := m.SplitObject(u.Tuple.Object)
-		for _, v := range outs {
-			if v.Outcome != refsem.True || v.Tuple.Relation != u.Tuple.Relation {
-				continue
-			}
-			vt, _ := m.SplitObject(v.Tuple.Object)
-			sameUser := v.Tuple.User == u.Tuple.User ||
-				(m.UserType(v.Tuple.User) == m.UserType(u.Tuple.User) && (m.UserKind(v.Tuple.User) == "wildcard" || m.UserKind(u.Tuple.User) == "wildcard"))
-			if v.Tuple.Object == u.Tuple.Object || (vt == ut && sameUser) {
-				return true
-			}
-		}
-	}
-	return false
-}
-
-func TestC01(t *testing.T) { Run(t, "C01", genC01, checkC01) }
+func TestC01(t *testing.T) { fw.Run(t, "C01", genC01, checkC01) }
